@@ -234,6 +234,26 @@ def implied_vol_mixed_batches(ctx: Ctx) -> None:
                               {"log_moneyness": lms, "time_to_maturity": ts, "precision": precision, "volatility": vols.tolist(), "implied": iv.tolist()})
 
 
+def bisect_mixed_dtypes(ctx: Ctx, bisect) -> None:
+    """Targets of another dtype than the bracket (integer targets with a fractional bracket; single-precision targets with a
+    double-precision bracket and a precision only double precision resolves): the search runs in the precision of the BRACKET,
+    the root is within the requested precision of the true one."""
+    cases = [("integer targets, float64 bracket", torch.tensor([1, 2, 3]), torch.tensor([0.5, 0.5, 0.5], dtype=torch.float64), torch.tensor([2.5, 2.5, 2.5], dtype=torch.float64), 1e-9),
+             ("integer targets, Python-float bracket ends", torch.tensor([1, 2, 3]), 0.5, 2.5, 1e-6),
+             ("float32 targets, float64 bracket", torch.tensor([1.0, 2.0, 3.0], dtype=torch.float32), torch.tensor([0.5] * 3, dtype=torch.float64), torch.tensor([2.5] * 3, dtype=torch.float64), 1e-10)]
+    for label, target, lower, upper, precision in cases:
+        try:
+            got = bisect(lambda x: x * x, target, lower, upper, precision=precision, max_iter=200)
+        except Exception as e:
+            ctx.violation("bisect:mixed-dtypes:raises", f"bisect raised {type(e).__name__} ({label})", {"error": repr(e)[:200]})
+            continue
+        ctx.count(("bisect-mixed", label), n=3)
+        want = target.double().sqrt()
+        if got.shape != want.shape or not bool(((got.double() - want).abs() <= precision * (1 + 1e-9)).all()):
+            ctx.violation("bisect:mixed-dtypes", f"bisect does not return the root within the requested precision ({label})",
+                          {"targets": target.tolist(), "precision": precision, "returned": got.tolist(), "roots": want.tolist()})
+
+
 def implied_vol_unreachable_precision(ctx: Ctx) -> None:
     """A precision that cannot be reached in the dtype of the prices (float32 prices, precision 1e-9 or 0): the search has to STOP -
     with an error, or with a value if it happens to land exactly - and must not go on for ever.  (Bisect.tla: the abort branch is
@@ -318,6 +338,7 @@ def check(ctx: Ctx) -> None:
     implied_vol(ctx)
     implied_vol_mixed_batches(ctx)
     implied_vol_unreachable_precision(ctx)
+    bisect_mixed_dtypes(ctx, bisect)
     ctx.traces_validated = n
     ctx.exhaustive = True
     ctx.rule = ("every terminal behaviour of Bisect.tla (all monotone tables on 9 grid points with values 0..3, all targets, precisions 0/1/2/4 units, "
